@@ -302,17 +302,18 @@ struct ThreadOut {
 /// Bring a table to a given length with filler values, so that a replay starts from the state the
 /// original execution started from (bucket allocations happen at the same additions).
 fn fill_to(want: &BTreeMap<Table, usize>) {
+    // items and paths first: their fillers also add byte strings
     let mut n = 0u64;
-    while BytesId::table().len() < want[&Table::Bytes] {
-        string::intern_bytes(format!("\u{7f}fill/{n}").into_bytes());
-        n += 1;
-    }
     while ItemId::table().len() < want[&Table::Item] {
         ItemId::intern(Item { name: string::intern("\u{7f}fill"), blob: BytesId::EMPTY, n: -(n as i64) - 1000 });
         n += 1;
     }
-    while PathId::table().len() < want[&Table::Path] {
+    while PathId::table().len() < want[&Table::Path] && BytesId::table().len() < want[&Table::Bytes] {
         let _ = PathId::from(format!("\u{7f}fill{n}"));
+        n += 1;
+    }
+    while BytesId::table().len() < want[&Table::Bytes] {
+        string::intern_bytes(format!("\u{7f}fill/{n}").into_bytes());
         n += 1;
     }
 }
